@@ -182,9 +182,9 @@ def configs(tier):
             if tier == "quick" and s != "none" and f in ("fwd-two-segments", "rev-two-segments"):
                 continue
             cfgs.append(dict(KR=6, KQ=6, first=f, second=s))
-    if tier != "quick":
-        for f in ("fwd-middle", "rev-middle", "fwd-start"):
-            cfgs.append(dict(KR=6, KQ=10, first=f, second="fwd-tail"))
+    for f in (("fwd-middle", "rev-middle") if tier == "quick" else ("fwd-middle", "rev-middle", "fwd-start", "rev-end")):
+        for s in (("fwd-tail",) if tier == "quick" else ("fwd-tail", "rev-head", "fwd-overlap")):
+            cfgs.append(dict(KR=6, KQ=10, first=f, second=s))
     return cfgs
 
 
@@ -195,7 +195,7 @@ def units(prop):
                    "src.alignment.alignment_results:AlignmentResultRow.create", "src.alignment.alignment_results:AlignmentResultRow.getUnalignedFragments",
                    "src.alignment.alignment_results:AlignmentResults.resolve", "src.alignment.alignment_results:AlignmentResultRow.resolve",
                    "src.parsers.xmap_reader:XmapReader.writeAlignments"],
-        bounds="reference of 6 labels, untrimmed query of 6 (thorough also 10) labels, all coordinates / lengths / seeds / scores unbounded "
+        bounds="reference of 6 labels, untrimmed query of 6 and 10 labels, all coordinates / lengths / seeds / scores unbounded "
                "symbolic reals; first-pass record from 6 patterns (1-2 segments, both strands, start / middle / end of the molecule); "
                "second-pass record on a fragment returned by the real getUnalignedFragments; joined record when the real resolve joins; "
                "<= 3 records per file",
